@@ -51,6 +51,13 @@ def emptyTagsGo : Option (Name × List (Name × List Char)) → List Ev → List
 
 def emptyTags (evs : List Ev) : List Tok := emptyTagsGo none evs
 
+/-- the events a serializer token stands for -/
+def tokEvents : Tok → List Ev
+  | .text s f => [.text s f]
+  | .open t a => [.start t a]
+  | .empty t a => [.start t a, .end_ t]
+  | .close t => [.end_ t]
+
 /-! ### WhitespaceFilter -/
 
 def isBlank (c : Char) : Bool := c = ' ' || c = '\t'
